@@ -62,7 +62,7 @@ def enum_schedules(drv, requests):
     return out
 
 
-def _run_chunks(cmds, timeout):
+def _run_chunks(cmds, timeout, env=None):
     """run several processes concurrently (stdout to files, so that none blocks on a full pipe);
     returns their stdout line lists (None on failure)"""
     d = common.run_dir()
@@ -70,7 +70,8 @@ def _run_chunks(cmds, timeout):
     for i, cmd in enumerate(cmds):
         path = os.path.join(d, "out_%d_%d_%d.txt" % (os.getpid(), int(time.time() * 1000) % 1000000, i))
         f = open(path, "w")
-        procs.append((subprocess.Popen(cmd, stdout=f, stderr=subprocess.DEVNULL, preexec_fn=_big_stack), f, path))
+        procs.append((subprocess.Popen(cmd, stdout=f, stderr=subprocess.DEVNULL, preexec_fn=_big_stack,
+                                       env=None if env is None else dict(os.environ, **env)), f, path))
     outs = []
     deadline = time.time() + timeout
     for p, f, path in procs:
@@ -92,6 +93,10 @@ def _run_chunks(cmds, timeout):
         except OSError:
             pass
     return outs
+
+
+# cases on which the implementation did not return, over the whole check (enough of them and nothing more is narrowed)
+HUNG = [0]
 
 
 def run_conc(lines, nthreads_hint=3, release=False):
@@ -118,10 +123,11 @@ def run_conc(lines, nthreads_hint=3, release=False):
     q = subprocess.run([exe, "conc", probe], stdout=subprocess.PIPE, stderr=subprocess.PIPE, text=True, timeout=120)
     if q.returncode == 3:
         raise RuntimeError("the specs sources lack the C10 yield hook (verif_sched): apply hooks/c10_yield.patch")
-    impl_chunks = _run_chunks([[exe, "conc", cp] for cp in cpaths], timeout=3600)
+    impl_chunks = _run_chunks([[exe, "conc", cp] for cp in cpaths], timeout=3600,
+                              env={"SV_WATCHDOG_SECS": "45"} if HUNG[0] >= 4 else None)
     impl = []
     singles = [0]
-    hung = [0]
+    hung = HUNG
 
     def one_by_one(cases):
         out = []
@@ -134,7 +140,7 @@ def run_conc(lines, nthreads_hint=3, release=False):
             _write_lines(one, [c])
             try:
                 q = subprocess.run([exe, "conc", one], stdout=subprocess.PIPE, stderr=subprocess.DEVNULL, text=True,
-                                   timeout=60)
+                                   timeout=20)
                 out.append(q.stdout.strip().split("\n")[0] if q.returncode == 0 and q.stdout.strip() else "98")
             except subprocess.TimeoutExpired:
                 hung[0] += 1
@@ -153,7 +159,13 @@ def run_conc(lines, nthreads_hint=3, release=False):
                 _write_lines(sp, sc)
                 spaths.append(sp)
             for g in range(0, len(sub), 4):
-                souts = _run_chunks([[exe, "conc", sp] for sp in spaths[g:g + 4]], timeout=600)
+                if hung[0] >= 4:
+                    # enough hanging cases to report and to shrink from: the rest counts as not run
+                    for sc in sub[g:g + 4]:
+                        out.extend(["98"] * len(sc))
+                    continue
+                souts = _run_chunks([[exe, "conc", sp] for sp in spaths[g:g + 4]], timeout=600,
+                                    env={"SV_WATCHDOG_SECS": "45"})
                 for sc, so in zip(sub[g:g + 4], souts):
                     out.extend(so if so is not None and len(so) == len(sc) else one_by_one(sc))
             for sp in spaths:
